@@ -382,6 +382,16 @@ def generate(repo=REPO, gen=GEN):
                 "namespace Metapype.Gen\n\n/-- (rule, child name) pairs recorded as known findings of C10 -/\n"
                 "def findingsC10 : List (String × String) := " + llist([f"({lstr(a)}, {lstr(b)})" for a, b in c10]) + "\n\nend Metapype.Gen\n")
 
+    # ---- write-site inventory of the read-only entry points (C11)
+    import write_sites
+    ws, ws_fns = write_sites.inventory(repo)
+    txt_ws = ("-- GENERATED by translator/write_sites.py from the repository's current source. Do not edit.\n"
+              "namespace Metapype.Gen\n\n/-- (module, function, kind, statement, class ∈ local | rule | caller | tree) -/\n"
+              "def writeSites : List (String × String × String × String × String) := [\n  " +
+              ",\n  ".join(f"({lstr(x['module'])}, {lstr(x['function'])}, {lstr(x['kind'])}, {lstr(x['stmt'])}, {lstr(x['class'])})" for x in ws) +
+              "\n]\n\n/-- functions reachable (by name) from the read-only entry points -/\n"
+              "def readOnlyFunctions : List (String × String) := " + llist([f"({lstr(a)}, {lstr(b)})" for a, b in ws_fns]) + "\n\nend Metapype.Gen\n")
+
     changed = []
     if write_if_changed(os.path.join(gen, "Rules.lean"), txt_rules):
         changed.append("Rules.lean")
@@ -391,6 +401,8 @@ def generate(repo=REPO, gen=GEN):
         changed.append("Witness.lean")
     if write_if_changed(os.path.join(gen, "Findings.lean"), txt_find):
         changed.append("Findings.lean")
+    if write_if_changed(os.path.join(gen, "WriteSites.lean"), txt_ws):
+        changed.append("WriteSites.lean")
     if write_if_changed(os.path.join(gen, "NameWitness.lean"), txt_nw):
         changed.append("NameWitness.lean")
     return changed
